@@ -60,6 +60,16 @@ Proof.
   apply (u_fun _ UO); auto. congruence.
 Qed.
 
+(* predecessors present in the log are strictly older *)
+Lemma pinv_mono U l e n p : univ_ok U -> pinv U l ->
+  In e (ents l) -> In n (e_next e) -> In (n, p) (l_entries l) -> e_time p < e_time e.
+Proof.
+  intros UO I He Hn Hp. destruct (pinv_entry _ _ _ I He) as [_ HeU].
+  destruct (u_closed _ UO _ _ HeU Hn) as [q [HqU [Hq Ht]]].
+  destruct (pi_in_U _ _ I _ _ Hp) as [HpU Hpk].
+  assert (p = q) by (apply (u_fun _ UO); auto; congruence). now subst.
+Qed.
+
 (* ---- Append ---- *)
 Section PAppend.
   Variables (U : list entry) (l : log) (payload : N) (pc : Z) (h : hash) (e : entry).
